@@ -475,6 +475,7 @@ func init() {
 					c.R.Floor("C10.R6", runAs(c, "C10.R6", func(c2 *Ctx) { c05TypeOf(c2, fd) }, nil), 1)
 				}
 			}},
+			{ID: "C10.R7", Doc: "TypeOf, the kind test the navigation relies on, reports the stored kind of every field, containers by their interface (= C12.R3)", Run: func(c *Ctx) { c.R.Floor("C10.R7", runAs(c, "C10.R7", c12R3, func(o *Obligation) bool { return strings.Contains(o.Construct, "TypeOf") }), 2) }},
 			{ID: "C10.R5", Doc: "PURE: tree-form reads write nothing", Run: func(c *Ctx) {
 				c.R.Floor("C10.R5", pureRule(c, "C10.R5", []string{"(*list).GetTF", "(*list).TypeOfTF", "(*object).GetTF", "(*object).TypeOfTF"}), 4)
 			}},
@@ -652,6 +653,7 @@ func init() {
 				c.R.Floor("C11.R7", n, 4)
 			}},
 			{ID: "C11.R6", Doc: "frame: no two containers share storage, so a write through one path is invisible through every other (= OWN, C09.R2)", Run: func(c *Ctx) { c.R.Floor("C11.R6", ownRule(c, "C11.R6"), 3) }},
+			{ID: "C11.R8", Doc: "TypeOf, which decides reuse-or-replace of an intermediate, reports the stored kind of every field, containers by their interface (= C12.R3)", Run: func(c *Ctx) { c.R.Floor("C11.R8", runAs(c, "C11.R8", c12R3, func(o *Obligation) bool { return strings.Contains(o.Construct, "TypeOf") }), 2) }},
 			{ID: "C11.R5", Doc: "fluent return of SetTF/UnsetTF (registered ego on every path)", Run: c11Fluent},
 		},
 	})
